@@ -32,6 +32,16 @@ pub trait Instrument: Sized {
     }
 }
 impl<T: Sized> Instrument for T {}
+/// Events at WARN and ERROR level are observable by the verification engines: the macro
+/// arguments are not evaluated, the level is reported to `__verif_event` (a counter natively and
+/// under Kani; an intercepted call in the MIR interpreter).
+pub static mut VERIF_EVENTS: [u32; 3] = [0; 3];
+#[inline(never)]
+pub fn __verif_event(level: u8) {
+    unsafe {
+        VERIF_EVENTS[(level % 3) as usize] += 1;
+    }
+}
 #[macro_export]
 macro_rules! trace { ($($t:tt)*) => { () } }
 #[macro_export]
@@ -39,9 +49,9 @@ macro_rules! debug { ($($t:tt)*) => { () } }
 #[macro_export]
 macro_rules! info { ($($t:tt)*) => { () } }
 #[macro_export]
-macro_rules! warn { ($($t:tt)*) => { () } }
+macro_rules! warn { ($($t:tt)*) => { $crate::__verif_event(1) } }
 #[macro_export]
-macro_rules! error { ($($t:tt)*) => { () } }
+macro_rules! error { ($($t:tt)*) => { $crate::__verif_event(2) } }
 #[macro_export]
 macro_rules! trace_span { ($($t:tt)*) => { $crate::Span::none() } }
 #[macro_export]
